@@ -728,3 +728,216 @@ def c16(X, which="xonsh", repo="/repo"):
 
 
 ORACLES.update({"c16": c16})
+
+
+# ------------------------------------------------------------------ C12
+ENVS = {
+    "C-ascii": {"LC_ALL": "C", "LANG": "C", "PYTHONCOERCECLOCALE": "0", "PYTHONUTF8": "0"},
+    "C-utf8mode": {"LC_ALL": "C", "LANG": "C", "PYTHONCOERCECLOCALE": "0", "PYTHONUTF8": "1"},
+    "C.utf8": {"LC_ALL": "C.utf8", "LANG": "C.utf8", "PYTHONUTF8": "0"},
+}
+_CHILD = r'''
+import sys, json, ast, os, tempfile, pathlib
+sys.setrecursionlimit(10000)
+sys.path.insert(0, sys.argv[1])
+from peg_parser.parser import XonshParser
+def obs(f):
+    try:
+        t = f()
+        return ["ok", ast.dump(t, include_attributes=True)]
+    except SyntaxError as e:
+        return [type(e).__name__, e.msg, e.lineno, e.offset, e.text, e.end_lineno, e.end_offset]
+    except RecursionError:
+        return ["RecursionError"]
+    except Exception as e:
+        return ["EXC:" + type(e).__name__, str(e)[:200]]
+out = []
+d = tempfile.mkdtemp(prefix="c12_")
+try:
+    for i, content in enumerate(json.load(sys.stdin)):
+        p = pathlib.Path(d) / f"m{i}.py"
+        data = content.encode("utf-8", "surrogatepass")
+        p.write_bytes(data)
+        a = obs(lambda: XonshParser.parse_file(p))
+        b = obs(lambda: XonshParser.parse_string(content, mode="exec"))
+        out.append([a, b])
+        p.unlink()
+finally:
+    os.rmdir(d)
+print(json.dumps(out))
+'''
+
+
+def file_vs_string(contents, env_name, repo="/repo", timeout=300):
+    """run parse_file and parse_string on each content in a child interpreter started with the given environment"""
+    import json
+    import os
+    import subprocess
+    env = {k: v for k, v in os.environ.items() if not k.startswith(("LC_", "LANG", "PYTHONUTF8", "PYTHONCOERCE", "PYTHONIOENCODING"))}
+    env.update(ENVS[env_name])
+    env["PYTHONDONTWRITEBYTECODE"] = "1"
+    p = subprocess.run(["/venv/bin/python", "-c", _CHILD, repo], input=json.dumps(contents), capture_output=True, text=True, env=env, timeout=timeout, encoding="utf-8")
+    if p.returncode != 0:
+        return None, p.stderr[-400:]
+    return json.loads(p.stdout), None
+
+
+def universal(text):
+    return text.replace("\r\n", "\n").replace("\r", "\n")
+
+
+def c12(X, content, env_name="C-ascii", repo="/repo"):
+    if "\x00" in content:
+        return None
+    res, err = file_vs_string([content], env_name, repo)
+    if res is None:
+        return {"kind": "child-interpreter-failed", "observed": err, "expected": "comparison ran"}
+    a, b = res[0]
+    if a != b:
+        feat = {}
+        if re.search(r"\r", content):
+            # text-mode files translate newlines, strings do not: the same comparison with the translated string
+            res2, _ = file_vs_string([universal(content)], env_name, repo)
+            if res2 is not None and res2[0][0] == res2[0][1] and res2[0][0] == a:
+                feat = {"feature": "newline-translation-only"}
+        return {"kind": "file-and-string-disagree", "observed": {"file": str(a)[:300], "string": str(b)[:300]}, "env": env_name,
+                "expected": "same tree / same error", **feat}
+    return None
+
+
+ORACLES.update({"c12": c12})
+
+
+# ------------------------------------------------------------------ C13
+def _fp(v, depth=0, seen=None):
+    import types as _t
+    if seen is None:
+        seen = set()
+    if isinstance(v, (str, int, float, bool, type(None), bytes, complex)):
+        return repr(v)
+    if id(v) in seen or depth > 6:
+        return "<...>"
+    seen = seen | {id(v)}
+    if isinstance(v, dict):
+        return "{" + ",".join(sorted(f"{_fp(k, depth + 1, seen)}:{_fp(x, depth + 1, seen)}" for k, x in v.items())) + "}"
+    if isinstance(v, (set, frozenset)):
+        return "set(" + ",".join(sorted(_fp(x, depth + 1, seen) for x in v)) + ")"
+    if isinstance(v, (list, tuple)):
+        return type(v).__name__ + "[" + ",".join(_fp(x, depth + 1, seen) for x in v) + "]"
+    if isinstance(v, type):
+        items = []
+        for k, x in vars(v).items():
+            if k in ("__dict__", "__weakref__", "__doc__", "__module__", "__annotations__", "_abc_impl", "__parameters__", "__orig_bases__"):
+                continue
+            items.append(f"{k}={_fp(x, depth + 1, seen)}")
+        return f"class {v.__name__}(" + ",".join(sorted(items)) + ")"
+    if isinstance(v, (_t.FunctionType, _t.BuiltinFunctionType, _t.MethodType, staticmethod, classmethod, property)):
+        f = getattr(v, "__func__", v)
+        return f"fn:{getattr(f, '__qualname__', '?')}:{id(getattr(f, '__code__', f))}"
+    if isinstance(v, _t.ModuleType):
+        return f"module:{v.__name__}"
+    if hasattr(v, "cache_info") and hasattr(v, "__wrapped__"):
+        return f"lru:{getattr(v.__wrapped__, '__qualname__', '?')}"   # the regex compile cache is keyed by the full pattern: exempt
+    if isinstance(v, ast.AST):
+        return f"ast:{type(v).__name__}:{_fp(vars(v), depth + 1, seen)}"
+    if hasattr(v, "__dict__") and not callable(v):
+        return f"obj:{type(v).__name__}:{_fp(vars(v), depth + 1, seen)}"
+    return f"{type(v).__name__}:{repr(v)[:80] if not callable(v) else getattr(v, '__qualname__', '?')}"
+
+
+def module_state(ns):
+    """fingerprint of everything reachable from the module and class globals of the four peg_parser modules"""
+    out = {}
+    for mname in ("tokenize", "tokenizer", "subheader", "parser"):
+        mod = getattr(ns, mname)
+        for k, v in vars(mod).items():
+            if k.startswith("__") and k not in ("__all__",):
+                continue
+            out[f"{mname}.{k}"] = _fp(v)
+    return out
+
+
+def state_diff(a, b):
+    keys = sorted(set(a) | set(b))
+    return [k for k in keys if a.get(k) != b.get(k)]
+
+
+def c13(X, history, repo="/repo"):
+    """outcomes of a history of parse_string calls in this process vs each call alone in a fresh interpreter; module state untouched"""
+    import json
+    import os
+    import subprocess
+    before = module_state(X)
+    got = []
+    trees = []
+    for src, mode in history:
+        k, p = O.run_parse(X, src, mode)
+        got.append(list(O.outcome_obs(k, p)) if k != "ok" else ["ok", O.dump(p)])
+        trees.append((p, O.dump(p)) if k == "ok" else None)
+    after = module_state(X)
+    d = state_diff(before, after)
+    if d:
+        return {"kind": "module-state-changed", "observed": d[:6], "expected": "no write to module/class level state"}
+    for i, t in enumerate(trees):
+        if t is not None and O.dump(t[0]) != t[1]:
+            return {"kind": "returned-tree-altered-by-later-parse", "observed": f"tree of call {i}", "expected": "trees share no mutable state"}
+    child = r'''
+import sys, json, ast
+sys.setrecursionlimit(10000)
+sys.path.insert(0, sys.argv[1])
+from peg_parser.parser import XonshParser
+src, mode = json.load(sys.stdin)
+try:
+    t = XonshParser.parse_string(src, mode=mode)
+    print(json.dumps(["ok", ast.dump(t, include_attributes=True)]))
+except SyntaxError as e:
+    print(json.dumps([type(e).__name__, [type(e).__name__, e.msg, e.filename, e.lineno, e.offset, e.text, e.end_lineno, e.end_offset]]))
+except Exception as e:
+    kind = "TokenError" if type(e).__name__ == "TokenError" else "EXC:" + type(e).__name__
+    print(json.dumps([kind, [type(e).__name__, [repr(a) for a in e.args]]]))
+'''
+    fresh = {}
+
+    def norm(x):
+        return json.loads(json.dumps(x))
+    for (src, mode), g in zip(history, got):
+        key = (src, mode)
+        if key not in fresh:
+            p = subprocess.run(["/venv/bin/python", "-c", child, repo], input=json.dumps([src, mode]), capture_output=True, text=True, timeout=60,
+                               env={**os.environ, "PYTHONDONTWRITEBYTECODE": "1"})
+            fresh[key] = json.loads(p.stdout) if p.returncode == 0 and p.stdout.strip() else ["child-failed", p.stderr[-200:]]
+        f = fresh[key]
+        same = norm(g) == norm(f)
+        if not same:
+            return {"kind": "history-dependent-result", "observed": str(g)[:200], "expected": str(f)[:200], "input": src}
+    return None
+
+
+def c13_threads(X, inputs, nthreads=8, rounds=3):
+    """sampled schedule sweep (outside the solver-decided claim): a thread pool over shuffled inputs vs the sequential results"""
+    import concurrent.futures as cf
+    import random
+    seq = {}
+    for src, mode in inputs:
+        k, p = O.run_parse(X, src, mode, wall=20.0)
+        seq[(src, mode)] = O.outcome_obs(k, p)
+
+    def work(item):
+        src, mode = item
+        try:
+            t = X.parser.XonshParser.parse_string(src, mode=mode)
+            return item, ("ok", O.dump(t))
+        except Exception as e:  # noqa: BLE001
+            return item, (O.classify(e, X), O.exc_sig(e))
+    rng = random.Random(0)
+    for _ in range(rounds):
+        items = list(inputs) * 2
+        rng.shuffle(items)
+        with cf.ThreadPoolExecutor(nthreads) as pool:
+            for item, got in pool.map(work, items):
+                if got != seq[item]:
+                    return {"kind": "thread-dependent-result", "observed": str(got)[:200], "expected": str(seq[item])[:200], "input": item[0]}
+    return None
+
+
+ORACLES.update({"c13": c13, "c13_threads": c13_threads})
